@@ -82,6 +82,27 @@ void do_blocks(CallCtx &cx, int block)
   }
 }
 
+// block sizes and counts at the far end of the index type: the body takes each block as one unit
+template <typename I, int B>
+void do_wide_b(CallCtx &cx)
+{
+  I n = (I)cx.count;
+  SimTag tag(SIM_TAG_SUT);
+  parallel_in_blocks_of<B>(n, [&cx](I begin, I end) {
+    c01_wide_block(cx.h, (unsigned long long)begin, (unsigned long long)end, (I)-1 < (I)0);
+    sim_work(1);
+    c01_body_exit(cx.h);
+  });
+}
+template <typename I>
+void do_wide(CallCtx &cx, int block)
+{
+  if (block == (1 << 30))
+    do_wide_b<I, (1 << 30)>(cx);
+  else
+    do_wide_b<I, 2147483647>(cx);
+}
+
 void do_foreach(CallCtx &cx, bool iterators)
 {
   std::vector<Elem> v((size_t)(cx.count > 0 ? cx.count : 0));
@@ -114,8 +135,22 @@ void dispatch(CallCtx &cx, int api, int block)
 {
   if (api == C01_FOR)
     do_for<I>(cx);
+  else if (api == C01_BLOCKS_WIDE)
+    do_wide<I>(cx, block);
   else
     do_blocks<I>(cx, block);
+}
+
+template <typename I>
+void dispatch_small(CallCtx &cx, int api, int block)
+{
+#ifdef C01_SMALL_INDEX_BLOCKS
+  if (api == C01_BLOCKS)
+    return do_blocks<I>(cx, block);
+#endif
+  (void)api;
+  (void)block;
+  do_for<I>(cx);
 }
 
 void run_call(const C01Call &c, bool inner, int api, int itype, long long count, int block)
@@ -124,7 +159,8 @@ void run_call(const C01Call &c, bool inner, int api, int itype, long long count,
   cx.count = count;
   cx.c = &c;
   cx.inner = inner;
-  long long nslots = count > 0 ? count : 1;
+  const bool wide = api == C01_BLOCKS_WIDE;  // no per-index state: the count may be 2^33
+  long long nslots = count > 0 && !wide ? count : 1;
   cx.slots = new int[(size_t)nslots]();
   sim_watch(cx.slots, (size_t)(nslots > 1024 ? 1024 : nslots) * sizeof(int), "slots");
   cx.h = c01_call_begin(api, itype, count, block, inner);
@@ -136,8 +172,8 @@ void run_call(const C01Call &c, bool inner, int api, int itype, long long count,
     do_foreach(cx, api == C01_FOREACH_IT);
   } else {
     switch (itype) {
-    case 0: do_for<unsigned char>(cx); break;  // parallel_in_blocks_of does not compile for this type
-    case 1: do_for<short>(cx); break;          // nor for short
+    case 0: dispatch_small<unsigned char>(cx, api, block); break;
+    case 1: dispatch_small<short>(cx, api, block); break;
     case 2: dispatch<int>(cx, api, block); break;
     case 3: dispatch<unsigned>(cx, api, block); break;
     case 4: dispatch<long>(cx, api, block); break;
@@ -154,7 +190,7 @@ void run_call(const C01Call &c, bool inner, int api, int itype, long long count,
   } else {
     c01_call_end(cx.h);
     // all effects of the invocations are visible to the caller now
-    for (long long i = 0; i < count; i++)
+    for (long long i = 0; i < count && !wide; i++)
       c01_slot_check(cx.h, i, cx.slots[i]);
   }
   sim_unwatch(cx.slots);
@@ -162,6 +198,15 @@ void run_call(const C01Call &c, bool inner, int api, int itype, long long count,
 }
 
 }  // namespace
+
+extern "C" int c01_small_index_blocks()
+{
+#ifdef C01_SMALL_INDEX_BLOCKS
+  return 1;
+#else
+  return 0;  // parallel_in_blocks_of does not instantiate for unsigned char / short on this tree
+#endif
+}
 
 extern "C" void c01_run()
 {
